@@ -103,3 +103,24 @@ Theorem C09_round_lists_are_files : forall fexp nf (files : list (list fpv)) (c 
   (In l (round_lists d r) <->
    exists n ids, is_idxs_of r n = true /\ dir_get d n = Some (CIdxs ids) /\ In l ids).
 Proof. exact round_lists_glob. Qed.
+
+(* ---- caller-supplied labels, and whole histories (Proofs/BirchLabels2.v) ---- *)
+From BB Require Import Proofs.BirchLabels Proofs.BirchLabels2.
+(* two labels that share a cluster keep sharing one through ANY later fits (with any labels),
+   reclusters, refinements that split nothing (n_largest <= 0), configuration changes and
+   delete_internal_nodes *)
+Theorem C09_history : forall fexp cfg0 pre post,
+  2 <= c_bf cfg0 -> ops_wf_l fexp (init cfg0) (pre ++ post) ->
+  ops_perms_ok fexp (init cfg0) (pre ++ post) -> Forall op_coarsens post ->
+  forall i j, together (st_blocks (run fexp cfg0 pre)) i j ->
+              together (st_blocks (run fexp cfg0 (pre ++ post))) i j.
+Proof. exact run_together_l. Qed.
+(* ... and through refinements with n_largest > 0 as long as they never split a cluster holding i *)
+Theorem C09_history_keep : forall fexp cfg0 pre post i,
+  2 <= c_bf cfg0 -> ops_wf_l fexp (init cfg0) (pre ++ post) ->
+  ops_perms_ok fexp (init cfg0) (pre ++ post) -> ops_keep fexp i (run fexp cfg0 pre) post ->
+  forall j, together (st_blocks (run fexp cfg0 pre)) i j ->
+            together (st_blocks (run fexp cfg0 (pre ++ post))) i j.
+Proof. intros fexp cfg0 pre post i H1 H2 H3 H4 j. eapply run_together_keep_l; eassumption. Qed.
+(* the side condition on refinements is necessary *)
+Example C09_refine_side_condition_needed := refine_side_condition_needed.
